@@ -322,7 +322,7 @@ func c17(c *Ctx) {
 	r.Assumptions = []string{"pebble: a batch commit is atomic in the WAL; Sync=true makes it durable before returning"}
 	r.Floor("R1.put-batch", 4)
 	r.Floor("R2.prune-batch", 3)
-	r.Floor("R3.open", 5)
+	r.Floor("R3.open", 6)
 	r.Floor("R4.get", 1)
 	m, why := newStoreModel(c)
 	if m == nil {
@@ -449,6 +449,38 @@ func c17(c *Ctx) {
 		r.Check(w == nil, "R3.open", core.FuncName(ctor)+" radius-max-first", p.Pos(maxStore.Pos()), "the radius is the maximum before anything is read", "the store can be used/read before its radius is initialised: "+p.PathString(w))
 		r.Check(isSizeKey(firstGet.Common().Args[1]), "R3.open", core.FuncName(ctor)+" reads-size-record", p.Pos(firstGet.Pos()), "reads the reserved size record", "the constructor does not read the size record")
 	}
+	// the usage counter is restored before anything that reads it runs (prune takes its starting
+	// figure from the counter, not from an argument)
+	restores := m.sizeOps(ctor, "Store")
+	readsCounter := func(f *ssa.Function) bool {
+		return f != nil && core.InModule(f) && core.ReachesInstr(f, 2, func(in ssa.Instruction) bool {
+			ci, ok := in.(ssa.CallInstruction)
+			if !ok {
+				return false
+			}
+			id := core.CalleeID(ci)
+			return strings.HasPrefix(id, atomicU64) && (strings.HasSuffix(id, ".Load") || strings.HasSuffix(id, ".Add")) && len(ci.Common().Args) > 0 && m.isField(ci.Common().Args[0], m.sizeFld)
+		})
+	}
+	nreaders := 0
+	core.Calls(ctor, func(ci ssa.CallInstruction) {
+		f := core.StaticCalleeFn(ci)
+		if f == nil || !readsCounter(f) {
+			return
+		}
+		nreaders++
+		w := core.MustPassBefore(ci, func(in ssa.Instruction) bool {
+			for _, s := range restores {
+				if in == ssa.Instruction(s) {
+					return true
+				}
+			}
+			return false
+		})
+		r.Check(w == nil, "R3.open", fmt.Sprintf("%s counter-restored-before %s", core.FuncName(ctor), core.FuncName(f)), p.Pos(ci.Pos()),
+			"the usage counter holds the persisted figure before this reader of the counter runs", "on open this call reads the usage counter before it was restored from the size record (it sees 0): "+p.PathString(w))
+	})
+	r.Count("ctor_counter_readers", nreaders)
 	// radius replaced only under size > 0.95 capacity
 	core.Calls(ctor, func(ci ssa.CallInstruction) {
 		if core.CalleeID(ci) != atomicValStore || !m.isField(ci.Common().Args[0], m.radFld) || ci == maxStore {
